@@ -13,6 +13,7 @@
 #include <stdlib.h>
 #include <string.h>
 #include <time.h>
+#include <malloc.h>
 
 #include "EbDefinitions.h"
 #include "EbBitstreamUnit.h"
@@ -117,10 +118,17 @@ static int layer_ops(char layer, int *out) {
         out[k++] = sym(16, 4, 0);  out[k++] = sym(16, 4, 15);  // 16-ary AV1 default (cfl alpha)
         out[k++] = sym(2, 4, 1);   out[k++] = sym(2, 4, 0);    // binary AV1 default
         out[k++] = sym(3, 1, 0);   out[k++] = sym(3, 1, 2);    // ternary first~1
+        out[k++] = sym(8, 0, 0);   out[k++] = sym(8, 0, 7);    // 8-ary uniform
+        out[k++] = sym(4, 3, 2);   out[k++] = sym(4, 3, 3);    // 4-ary, mass on symbol 2
         out[k++] = find_op(K_BOOLQ, 0, 1, 1);                   // rarest bool event (range -> EC_MIN_PROB)
         out[k++] = find_op(K_BOOLQ, 0, 0, 32767);
         out[k++] = find_op(K_BOOL8, 0, 1, 128);
         out[k++] = find_op(K_LIT, 0, 0xFF, 8);
+    } else if (layer == 'T') {
+        out[k++] = sym(16, 4, 0);  out[k++] = sym(16, 4, 15);
+        out[k++] = sym(2, 4, 0);   out[k++] = sym(4, 0, 3);
+        out[k++] = find_op(K_BOOLQ, 0, 1, 1);
+        out[k++] = find_op(K_BOOL8, 0, 1, 128);
     } else {
         fprintf(stderr, "unknown layer\n");
         exit(3);
@@ -197,9 +205,8 @@ static int cmp64(const void *a, const void *b) {
 }
 
 // ------------------------------------------------------------------------------------------------ one sequence
-#define MAXITEMS 8
-#define MAXSEQ 4128
-typedef struct { int op[MAXITEMS]; int rep[MAXITEMS]; int n; int adapt; } Seq;
+#define MAXSEQ 4224
+typedef struct { uint16_t op[MAXSEQ]; int n; int adapt; } Seq;
 
 static struct {
     uint64_t evals, nontrivial, ops_total, viol, maxbytes, max_carry_chain, carries;
@@ -210,13 +217,25 @@ static uint8_t    outbuf[1 << 16];
 static int        verbose_fail = 20;
 
 static void seq_json(const Seq *s, char *b, size_t n) {
-    size_t k = snprintf(b, n, "{\"adapt\":%d,\"seq\":\"", s->adapt);
-    for (int i = 0; i < s->n; i++) k += snprintf(b + k, n - k, "%s%dx%d", i ? "," : "", s->op[i], s->rep[i]);
+    size_t k = snprintf(b, n, "{\"adapt\":%d,\"length\":%d,\"seq\":\"", s->adapt, s->n);
+    for (int i = 0, first = 1; i < s->n && k + 64 < n;) {
+        int j = i;
+        while (j < s->n && s->op[j] == s->op[i]) j++;
+        k += snprintf(b + k, n - k, "%s%dx%d", first ? "" : ",", s->op[i], j - i);
+        first = 0;
+        i = j;
+    }
     k += snprintf(b + k, n - k, "\",\"ops\":[");
-    for (int i = 0; i < s->n; i++) {
+    int items = 0;
+    for (int i = 0, first = 1; i < s->n && k + 160 < n; items++) {
+        int j = i;
         char t[96];
+        while (j < s->n && s->op[j] == s->op[i]) j++;
+        if (items >= 12) { k += snprintf(b + k, n - k, ",\"...\""); break; }
         op_str(s->op[i], t, sizeof t);
-        k += snprintf(b + k, n - k, "%s\"%s x%d\"", i ? "," : "", t, s->rep[i]);
+        k += snprintf(b + k, n - k, "%s\"%s x%d\"", first ? "" : ",", t, j - i);
+        first = 0;
+        i = j;
     }
     snprintf(b + k, n - k, "]}");
 }
@@ -225,7 +244,7 @@ static void report(const Seq *s, const char *kind, int opid, const char *detail)
     st.viol++;
     if (verbose_fail <= 0) return;
     verbose_fail--;
-    char sj[2048], os[96] = "-";
+    char sj[65536], os[96] = "-";
     if (opid >= 0) {
         const Op *o = &ops[opid];
         switch (o->kind) {
@@ -252,7 +271,8 @@ static int test_seq(const Seq *s, int print) {
     aom_start_encode(&w, outbuf);
     for (int i = 0; i < s->n; i++) {
         const Op *o = &ops[s->op[i]];
-        for (int k = 0; k < s->rep[i]; k++, total++) {
+        {
+            total = i;
             switch (o->kind) {
             case K_SYM:
                 aom_write_symbol(&w, o->val, wc[o->ctx], ctxs[o->ctx].n);
@@ -264,6 +284,7 @@ static int test_seq(const Seq *s, int print) {
             }
         }
     }
+    total = s->n;
     // carry chains present in the pre-carry buffer (before the final flush bytes are appended)
     {
         uint32_t c = 0, run = 0;
@@ -311,11 +332,11 @@ static int test_seq(const Seq *s, int print) {
     }
     r.allow_update_cdf = (uint8_t)s->adapt;
     for (int i = 0; i < nctx; i++) memcpy(rc[i], ctxs[i].init, sizeof(rc[i]));
-    total = 0;
     for (int i = 0; i < s->n; i++) {
         const Op *o = &ops[s->op[i]];
-        for (int k = 0; k < s->rep[i]; k++, total++) {
+        {
             int got;
+            total = i;
             switch (o->kind) {
             case K_SYM:
                 got = svt_read_symbol(&r, rc[o->ctx], ctxs[o->ctx].n, 0);
@@ -355,7 +376,7 @@ static int expired(void) {
 }
 
 static int alpha[MAXOPS], A, Lmax, shard, nshard;
-static char sample_buf[4][2048];
+static char sample_buf[4][8192];
 static int  nsample;
 
 static void dfs(Seq *s) {
@@ -366,8 +387,7 @@ static void dfs(Seq *s) {
     }
     if (s->n == Lmax) return;
     for (int i = 0; i < A; i++) {
-        s->op[s->n] = alpha[i];
-        s->rep[s->n] = 1;
+        s->op[s->n] = (uint16_t)alpha[i];
         if (s->n == 1) {
             // shard on the first two operations
             int a0 = 0;
@@ -378,6 +398,69 @@ static void dfs(Seq *s) {
         dfs(s);
         s->n--;
     }
+}
+
+// ---- carry chains: sequences constructed (with knowledge of the writer's window) so that the coded interval keeps straddling
+// the point where the pending window overflows; every byte emitted meanwhile is 0xFF and the final operation moves the
+// interval above that point, so svt_od_ec_enc_done has to ripple a carry through the whole run.
+typedef struct { AomWriter w; AomCdfProb c[MAXCTX][17]; } WState;
+
+static void ws_apply(WState *x, int opid) {
+    const Op *o = &ops[opid];
+    switch (o->kind) {
+    case K_SYM: aom_write_symbol(&x->w, o->val, x->c[o->ctx], ctxs[o->ctx].n); break;
+    case K_BOOL8: aom_write(&x->w, o->val, o->par); break;
+    case K_BOOLQ: svt_od_ec_encode_bool_q15(&x->w.ec, o->val, o->par); break;
+    default: aom_write_literal(&x->w, o->val, o->par);
+    }
+}
+// 1 when the interval [low, low+rng) still contains the point at which the window carries out
+static int ws_straddles(const WState *x) {
+    uint64_t T = 1ULL << (x->w.ec.cnt + 24);
+    return (uint64_t)x->w.ec.low < T && (uint64_t)x->w.ec.low + x->w.ec.rng > T;
+}
+static int ws_carried(const WState *x) { return (uint64_t)x->w.ec.low >= (1ULL << (x->w.ec.cnt + 24)); }
+
+static void carry_family(const int *cand, int nc, int adapt, int kmax, Seq *s) {
+    if (getenv("EC_DEBUG")) st.max_carry_chain = 0;
+    static uint8_t scratch[1 << 16];
+    WState         cur, t;
+    memset(&cur, 0, sizeof cur);
+    for (int i = 0; i < nctx; i++) memcpy(cur.c[i], ctxs[i].init, sizeof(cur.c[i]));
+    cur.w.allow_update_cdf = (uint8_t)adapt;
+    aom_start_encode(&cur.w, scratch);
+    s->n = 0;
+    s->adapt = adapt;
+    for (int k = 1; k <= kmax && !expired(); k++) {
+        // greedy step: keep straddling if any candidate does, else walk a fixed pattern until a straddle appears
+        int pick = cand[(k * 7 + k / nc) % nc];
+        for (int i = 0; i < nc; i++) {
+            t = cur; // shares the pre-carry buffer; only slots at/after cur.offs are written and cur rewrites them
+            ws_apply(&t, cand[i]);
+            if (ws_straddles(&t)) { pick = cand[i]; break; }
+        }
+        ws_apply(&cur, pick);
+        s->op[s->n++] = (uint16_t)pick;
+        // finisher: a candidate that pushes the interval over the top (carry), if one exists
+        int fin = -1;
+        for (int i = nc - 1; i >= 0 && fin < 0; i--) {
+            t = cur;
+            ws_apply(&t, cand[i]);
+            if (ws_carried(&t) || (t.w.ec.offs > cur.w.ec.offs && t.w.ec.precarry_buf[cur.w.ec.offs] >= 256)) fin = cand[i];
+        }
+        if (fin >= 0) {
+            s->op[s->n] = (uint16_t)fin;
+            s->n++;
+            test_seq(s, 0);
+            if (nsample < 4 && (k == kmax || k == 64)) seq_json(s, sample_buf[nsample++], sizeof sample_buf[0]);
+            s->n--;
+        } else {
+            test_seq(s, 0);
+        }
+        tick |= 0x3FFF;
+    }
+    if (getenv("EC_DEBUG")) fprintf(stderr, "carry family first-cand=%d adapt=%d: max chain so far %llu, steps %d\n", cand[0], adapt, (unsigned long long)st.max_carry_chain, s->n);
+    (void)aom_stop_encode(&cur.w);
 }
 
 static void dump_hashes(const char *path) {
@@ -409,6 +492,9 @@ static void print_stats(const char *mode, double t0, const char *extra) {
 int main(int argc, char **argv) {
     if (argc < 2) return 2;
     double t0 = now();
+    mallopt(M_MMAP_THRESHOLD, 1 << 30);
+    mallopt(M_TRIM_THRESHOLD, 1 << 30);
+    mallopt(M_TOP_PAD, 1 << 24);
     build_tables();
     st.min_margin = 1 << 30;
     st.max_margin = -(1 << 30);
@@ -445,8 +531,8 @@ int main(int argc, char **argv) {
             printf("]}");
         }
         printf("]");
-        const char *LY = "FMS";
-        for (int l = 0; l < 3; l++) {
+        const char *LY = "FMST";
+        for (int l = 0; l < 4; l++) {
             int a[MAXOPS], k = layer_ops(LY[l], a);
             printf(",\"layer_%c\":[", LY[l]);
             for (int i = 0; i < k; i++) printf("%s%d", i ? "," : "", a[i]);
@@ -464,19 +550,19 @@ int main(int argc, char **argv) {
     t_end = t0 + atof(arg(argc, argv, "deadline", "600"));
     sscanf(arg(argc, argv, "shard", "0/1"), "%d/%d", &shard, &nshard);
     const char *hashfile = arg(argc, argv, "hashfile", NULL);
+    static Seq s;
     if (!strcmp(mode, "replay")) {
-        Seq s;
         memset(&s, 0, sizeof s);
         s.adapt = atoi(arg(argc, argv, "adapt", "1"));
         const char *p = arg(argc, argv, "seq", "");
-        while (*p && s.n < MAXITEMS) {
+        while (*p) {
             int o, r, k = 0;
-            if (sscanf(p, "%dx%d%n", &o, &r, &k) < 2 || o < 0 || o >= nops || r < 1 || r > 4096) return 2;
-            s.op[s.n] = o; s.rep[s.n] = r; s.n++;
+            if (sscanf(p, "%dx%d%n", &o, &r, &k) < 2 || o < 0 || o >= nops || r < 1 || s.n + r > MAXSEQ) return 2;
+            for (int q = 0; q < r; q++) s.op[s.n++] = (uint16_t)o;
             p += k;
             if (*p == ',') p++;
         }
-        char sj[2048];
+        static char sj[65536];
         seq_json(&s, sj, sizeof sj);
         printf("%s\n", sj);
         int rc = test_seq(&s, 1);
@@ -487,10 +573,9 @@ int main(int argc, char **argv) {
     if (!strcmp(mode, "enum")) {
         A = layer_ops(arg(argc, argv, "layer", "S")[0], alpha);
         Lmax = atoi(arg(argc, argv, "L", "3"));
-        if (Lmax > MAXITEMS) return 2;
+        if (Lmax > 12) return 2;
         for (int adapt = 0; adapt < 2; adapt++) {
-            Seq s;
-            memset(&s, 0, sizeof s);
+            s.n = 0;
             s.adapt = adapt;
             dfs(&s);
         }
@@ -511,25 +596,36 @@ int main(int argc, char **argv) {
                 for (int pi = 0; pi < naff && !timed_out; pi++)
                     for (int si = 0; si < naff && !timed_out; si++, combo++) {
                         if (combo % nshard != shard) continue;
-                        Seq s;
-                        memset(&s, 0, sizeof s);
+                        int pre[2], npre = 0, suf[2], nsuf = 0;
+                        if (pi >= 1 + np) { pre[npre++] = P[(pi - 1 - np) / np]; pre[npre++] = P[(pi - 1 - np) % np]; }
+                        else if (pi >= 1) pre[npre++] = P[pi - 1];
+                        if (si >= 1 + np) { suf[nsuf++] = P[(si - 1 - np) / np]; suf[nsuf++] = P[(si - 1 - np) % np]; }
+                        else if (si >= 1) suf[nsuf++] = P[si - 1];
                         s.adapt = adapt;
-                        if (pi >= 1 + np) { s.op[s.n] = P[(pi - 1 - np) / np]; s.rep[s.n++] = 1; s.op[s.n] = P[(pi - 1 - np) % np]; s.rep[s.n++] = 1; }
-                        else if (pi >= 1) { s.op[s.n] = P[pi - 1]; s.rep[s.n++] = 1; }
-                        int mid = s.n++;
-                        s.op[mid] = R[ri];
-                        if (si >= 1 + np) { s.op[s.n] = P[(si - 1 - np) / np]; s.rep[s.n++] = 1; s.op[s.n] = P[(si - 1 - np) % np]; s.rep[s.n++] = 1; }
-                        else if (si >= 1) { s.op[s.n] = P[si - 1]; s.rep[s.n++] = 1; }
+                        for (int q = 0; q < npre; q++) s.op[q] = (uint16_t)pre[q];
                         for (int k = 1; k <= kmax; k++) {
-                            s.rep[mid] = k;
+                            s.op[npre + k - 1] = (uint16_t)R[ri];
+                            for (int q = 0; q < nsuf; q++) s.op[npre + k + q] = (uint16_t)suf[q];
+                            s.n = npre + k + nsuf;
                             test_seq(&s, 0);
-                            if (nsample < 4 && k == 1000 + 37 * nsample && (combo / nshard) % 7 == 3) seq_json(&s, sample_buf[nsample++], sizeof sample_buf[0]);
+                            if (nsample < 3 && k == 1000 + 37 * nsample && (combo / nshard) % 7 == 3) seq_json(&s, sample_buf[nsample++], sizeof sample_buf[0]);
                             if ((k & 63) == 0) { tick |= 0x3FFF; if (expired()) break; }
                         }
                     }
+        // carry-chain families, one per candidate context and adaptation setting
+        {
+            int cc[5][16], ncc[5] = {0, 0, 0, 0, 0};
+            for (int q = 0; q < 16; q++) cc[0][ncc[0]++] = sym(16, 0, q);          // 16-ary uniform
+            for (int q = 0; q < 16; q++) cc[1][ncc[1]++] = sym(16, 4, q);          // 16-ary AV1 default
+            for (int q = 0; q < 4; q++) cc[2][ncc[2]++] = sym(4, 0, q);            // 4-ary uniform
+            cc[3][ncc[3]++] = find_op(K_BOOL8, 0, 0, 128); cc[3][ncc[3]++] = find_op(K_BOOL8, 0, 1, 128); // literal bits
+            for (int q = 0; q < 8; q++) cc[4][ncc[4]++] = sym(8, 4, q);            // 8-ary AV1 default
+            for (int f = 0; f < 10; f++)
+                if (f % nshard == shard % 10 && shard < 10 && !timed_out) carry_family(cc[f / 2], ncc[f / 2], f & 1, kmax, &s);
+        }
         if (shard == 0) { // the empty sequence, both adaptation settings
-            Seq s;
-            memset(&s, 0, sizeof s);
+            s.n = 0;
+            s.adapt = 0;
             test_seq(&s, 0);
             s.adapt = 1;
             test_seq(&s, 0);
